@@ -18,7 +18,7 @@ from ..ctx import CTX, RunTooBig
 from ..history import History, canon, canon_outcome, digest
 from ..rng import Streams, chance, pick, weighted
 from .. import seams
-from ..sim import apply_knobs, apply_op, build_sim, set_input
+from ..sim import _guard, apply_knobs, apply_op, build_sim, set_input
 from ..world import ExprGen, gen_inputs, gen_request, gen_situation, gen_world
 from . import Result
 from .c06_c07 import call_update, gen_range
@@ -202,6 +202,9 @@ def generate(seed: int, tier: str) -> dict:
     for _ in range(orr.randint(4, 8)):
         r = gen_request(orr, world, allow_options=False)
         battery.append([orr.randrange(2), r[1], r[2]])
+    for v in world["variables"]:
+        if v.get("calculate_output") and len(battery) < 10:
+            battery.append([orr.randrange(2), v["name"], "2018" if v["unit"] == "month" else "2018-03", "output"])
     specs = {"S0": world}
     parents = {"S0": None}
     kinds = {"S0": "base"}
@@ -340,7 +343,7 @@ def evaluate(system, world, scn, entry, spec=None, knobs=None, engine=False, res
     the specification, whose neutralised variables are plain formula-less variables
     that must not be given inputs): inputs of neutralised variables are handed to it
     all the same - it is to ignore them, whichever way they arrive."""
-    si, var, period = entry
+    si, var, period = entry[:3]
     s = scn["situations"][si]
     inputs = s["inputs"]
     ignored = []
@@ -373,6 +376,11 @@ def evaluate(system, world, scn, entry, spec=None, knobs=None, engine=False, res
             sim = build_sim(world, s["situation"], knobs or {}, inputs + ignored, tbs=system)
     except Exception as e:  # noqa: BLE001
         return ["build-exc", type(e).__name__]
+    if len(entry) > 3 and entry[3] == "output":
+        # through Simulation.calculate_output, for a period only the variable's
+        # calculate_output helper makes sense of
+        CTX.begin()
+        return canon_outcome(_guard(lambda: sim.calculate_output(var, period)))
     return canon_outcome(apply_op(sim, world, ["calculate", var, period]))
 
 
@@ -401,6 +409,7 @@ def fingerprint(system, world, scn):
             str(v.label),
             bool(v.is_neutralized),
             getattr(v.set_input, "__name__", None),
+            getattr(v.calculate_output, "__name__", None),
             list(v.formulas),
         ]
     fp["variables"] = vs
@@ -645,7 +654,9 @@ def extra_battery(spec, scn):
             per = {"month": ["2018-03", "2018-01"], "year": ["2018"], "eternity": ["2018-01"]}.get(v["unit"], [])
             for p in per:
                 out.append([0, v["name"], p])
-    return out[:8]
+            if v.get("calculate_output"):
+                out.append([0, v["name"], "2018" if v["unit"] == "month" else "2018-03", "output"])
+    return out[:10]
 
 
 def _reads_annualized(spec, name, seen=None):
